@@ -87,7 +87,7 @@ var (
 		"access_set", "access_list",
 		"set_rules", "add_url", "refresh", "remove_url", "set_url", "filtering_config", "filtering_status", "check_host",
 		"rewrite_add", "rewrite_delete", "rewrite_update", "rewrite_list",
-		"services_update", "services_get",
+		"services_update", "services_get", "services_set_legacy",
 		"protection_pause", "protection_on",
 		"safesearch_settings", "safesearch_status",
 		"qlog_config", "qlog_clear", "qlog_get",
@@ -215,10 +215,38 @@ type runner struct {
 	find func([]string) (*querylog.Client, error)
 	cnt  func([]string) bool
 
+	// confLock plays the role of home's configuration lock held by
+	// (*configuration).write while it collects the settings of all components.
+	confLock sync.Mutex
+
 	mu       sync.Mutex // protects the fields below (tasks run concurrently in mode C)
 	problems []*kernel.Violation
 	listN    int
 	fivexx   int
+}
+
+// onConfigModified does what home's onConfigModified -> (*configuration).write
+// does on every "configuration modified" callback: under the configuration
+// lock it asks every component for its current settings again (the file write
+// itself is C14's subject).
+func (r *runner) onConfigModified() {
+	r.confLock.Lock()
+	defer r.confLock.Unlock()
+
+	if r.st != nil {
+		r.st.WriteDiskConfig(&stats.Config{})
+	}
+	if r.ql != nil {
+		r.ql.WriteDiskConfig(&querylog.Config{})
+	}
+	if n := r.n; n != nil {
+		n.Filter.WriteDiskConfig(&filtering.Config{})
+		n.Server.WriteDiskConfig(&dnsforward.Config{})
+		n.Clients.RangeByName(func(*client.Persistent) bool { return true })
+	}
+	if r.dh != nil {
+		r.dh.WriteDiskConfig(&dhcpd.ServerConfig{})
+	}
 }
 
 func (r *runner) problem(v *kernel.Violation) {
@@ -287,16 +315,19 @@ func (r *runner) run(tk Task) {
 	ctx := context.Background()
 	addr := netip.AddrPortFrom(netip.MustParseAddr(srcAddrs[tk.A%len(srcAddrs)]), 5000)
 	name := names[tk.A%len(names)]
+	// Every answer shape of the upstream gets exercised: addresses, and HTTPS
+	// records with address hints.
+	qt := []uint16{dns.TypeA, dns.TypeHTTPS, dns.TypeAAAA, dns.TypeHTTPS}[tk.B%4]
 	switch tk.Kind {
 	// ---- DNS requests
 	case "q_udp":
-		r.query(&dnsnode.Query{Proto: "udp", Addr: addr, Name: name, Qtype: dns.TypeA}, true)
+		r.query(&dnsnode.Query{Proto: "udp", Addr: addr, Name: name, Qtype: qt}, true)
 	case "q_tcp":
-		r.query(&dnsnode.Query{Proto: "tcp", Addr: addr, Name: name, Qtype: dns.TypeAAAA}, false)
+		r.query(&dnsnode.Query{Proto: "tcp", Addr: addr, Name: name, Qtype: qt}, false)
 	case "q_tls_cid":
-		r.query(&dnsnode.Query{Proto: "tls", Addr: addr, Name: name, Qtype: dns.TypeA, SNI: cids[tk.B%2] + "." + serverName}, false)
+		r.query(&dnsnode.Query{Proto: "tls", Addr: addr, Name: name, Qtype: qt, SNI: cids[tk.B%2] + "." + serverName}, false)
 	case "q_doh_cid":
-		r.query(&dnsnode.Query{Proto: "https", Addr: addr, Name: name, Qtype: dns.TypeA, SNI: serverName, Host: serverName, Path: "/dns-query/" + cids[tk.B%2]}, false)
+		r.query(&dnsnode.Query{Proto: "https", Addr: addr, Name: name, Qtype: qt, SNI: serverName, Host: serverName, Path: "/dns-query/" + cids[tk.B%2]}, false)
 	case "q_quic":
 		r.query(&dnsnode.Query{Proto: "quic", Addr: addr, Name: name, Qtype: dns.TypeHTTPS, SNI: serverName}, false)
 	case "q_dnscrypt":
@@ -378,6 +409,12 @@ func (r *runner) run(tk Task) {
 		r.api("PUT", "/control/blocked_services/update", map[string]any{"ids": ids, "schedule": map[string]any{"time_zone": "UTC"}})
 	case "services_get":
 		r.api("GET", "/control/blocked_services/get", nil)
+	case "services_set_legacy":
+		ids := []string{}
+		if tk.B%2 == 0 {
+			ids = []string{"4chan", "9gag"}
+		}
+		r.api("POST", "/control/blocked_services/set", ids)
 
 	// ---- protection
 	case "protection_pause":
@@ -447,6 +484,19 @@ func (r *runner) run(tk Task) {
 	default:
 		r.problem(kernel.Violationf("harness-unknown-task", "%q", tk.Kind))
 	}
+}
+
+// answerWithHints is the simulated upstream's answer: the default one, with
+// address hints on HTTPS records and a CNAME in front of some A answers, so
+// that response filtering has every kind of record to look at.
+func answerWithHints(req *dns.Msg) *dns.Msg {
+	m := env.DefaultAnswer(req)
+	for _, rr := range m.Answer {
+		if h, ok := rr.(*dns.HTTPS); ok {
+			h.Value = append(h.Value, &dns.SVCBIPv4Hint{Hint: []net.IP{net.IPv4(203, 0, 113, 7).To4()}}, &dns.SVCBIPv6Hint{Hint: []net.IP{net.ParseIP("2001:db8::7")}})
+		}
+	}
+	return m
 }
 
 func orEmpty(s []string) []string {
@@ -524,6 +574,13 @@ func raceSignature(report string) string {
 	}
 	if len(sigs) < 2 || (sigs[0] == "" && sigs[1] == "") {
 		return ""
+	}
+	// One unsynchronised read site racing with many writers is one defect:
+	// name it by the site, so that the known-finding entry covers exactly it.
+	for _, site := range []string{"filtering.(*DNSFilter).WriteDiskConfig.func1"} {
+		if sigs[0] == site || sigs[1] == site {
+			return site + " <-> (any writer)"
+		}
 	}
 	for i := range sigs {
 		if sigs[i] == "" {
@@ -620,7 +677,7 @@ func Run(t *testing.T, scAny any, c *kernel.Ctx) error {
 		anonymizer := aghnet.NewIPMut(nil)
 		mux := env.NewMux()
 		emptyIgn, _ := aghnet.NewIgnoreEngine(nil)
-		ql, err := querylog.New(querylog.Config{Logger: logger, Ignored: emptyIgn, Anonymizer: anonymizer, ConfigModified: func() {}, HTTPRegister: mux.Register,
+		ql, err := querylog.New(querylog.Config{Logger: logger, Ignored: emptyIgn, Anonymizer: anonymizer, ConfigModified: r.onConfigModified, HTTPRegister: mux.Register,
 			FindClient: func(ids []string) (*querylog.Client, error) { return r.find(ids) }, BaseDir: dir, RotationIvl: 24 * time.Hour,
 			MemSize: sc.MemSize, Enabled: true, FileEnabled: true})
 		if err != nil {
@@ -630,7 +687,7 @@ func Run(t *testing.T, scAny any, c *kernel.Ctx) error {
 		querylog.VerifInitWeb(ql)
 		emptyIgn2, _ := aghnet.NewIgnoreEngine(nil)
 		st, err := stats.New(stats.Config{Logger: logger, Filename: filepath.Join(dir, "stats.db"), Limit: 24 * time.Hour, Enabled: true, Ignored: emptyIgn2,
-			ConfigModified: func() {}, HTTPRegister: mux.Register, ShouldCountClient: func(ids []string) bool { return r.cnt(ids) }})
+			ConfigModified: r.onConfigModified, HTTPRegister: mux.Register, ShouldCountClient: func(ids []string) bool { return r.cnt(ids) }})
 		if err != nil {
 			return err
 		}
@@ -638,7 +695,7 @@ func Run(t *testing.T, scAny any, c *kernel.Ctx) error {
 		st.VerifInitWeb()
 		defer st.VerifCrash()
 
-		ds, err := dhcpd.Create(&dhcpd.ServerConfig{ConfigModified: func() {}, HTTPRegister: mux.Register, Enabled: true, InterfaceName: "verif0", LocalDomainName: "lan",
+		ds, err := dhcpd.Create(&dhcpd.ServerConfig{ConfigModified: r.onConfigModified, HTTPRegister: mux.Register, Enabled: true, InterfaceName: "verif0", LocalDomainName: "lan",
 			Conf4: dhcpd.V4ServerConf{GatewayIP: netip.MustParseAddr("192.168.10.1"), SubnetMask: netip.MustParseAddr("255.255.255.0"),
 				RangeStart: netip.MustParseAddr("192.168.10.100"), RangeEnd: netip.MustParseAddr("192.168.10.120"), LeaseDuration: 3600, ICMPTimeout: 0},
 			WorkDir: dir, DataDir: dir})
@@ -649,9 +706,10 @@ func Run(t *testing.T, scAny any, c *kernel.Ctx) error {
 		dh.VerifV4ConfigureDNSIPAddrs([]net.IP{net.IPv4(192, 168, 10, 1)})
 		r.dh = dh
 
-		up := &env.Upstream{Addr: "sim-upstream:53", Answer: env.DefaultAnswer, Latency: 337 * time.Microsecond}
+		up := &env.Upstream{Addr: "sim-upstream:53", Answer: answerWithHints, Latency: 337 * time.Microsecond}
 		cfg := &dnsnode.Config{Dir: dir, ListServer: r.ls, Upstream: up, UpTimeout: 2 * time.Second, ServerName: serverName,
-			QueryLog: ql, Stats: st, Anonymizer: anonymizer, ClientDHCP: dh, DHCP: dh, LocalDomain: "lan", RuntimeSourceDHCP: true}
+			QueryLog: ql, Stats: st, Anonymizer: anonymizer, ClientDHCP: dh, DHCP: dh, LocalDomain: "lan", RuntimeSourceDHCP: true,
+			OnModified: r.onConfigModified}
 		cfg.Filtering = filtering.Config{BlockingMode: filtering.BlockingModeDefault, ProtectionEnabled: true, FilteringEnabled: true, FiltersUpdateIntervalHours: 1,
 			UserRules: []string{"||ads.test^"}, Rewrites: []*filtering.LegacyRewrite{{Domain: "*.rw.test", Answer: "198.18.0.1"}},
 			SafeSearchCacheSize: 1 << 16, CacheTime: 30}
